@@ -5,7 +5,7 @@ import json
 CHECKS = {
  "C10": dict(
    technique="grammar-based and mutation fuzzing of the real CLI (rapid generators, shrinking) with a crash/hang/located-diagnostic oracle",
-   text="Exploration: tens of thousands of generated inputs per run (raw bytes, random YAML trees with yardl tags, structurally mutated valid packages incl. imported packages, grammar-derived type and expression strings, random manifests) are fed to `yardl validate` / `yardl generate`; oracle = exit 0, or exit 1 with an error naming an existing file (and a line for model files); any panic, fatal error, signal, exit code other than 0/1, >10 s run time or >4 GiB address space is a violation. Cannot show absence; aims generators at every unmarshaller and at the computed-field resolver.",
+   text="Exploration: tens of thousands of generated inputs per run (raw bytes, random YAML trees with yardl tags, structurally mutated valid packages incl. imported packages, grammar-derived type and expression strings, reference graphs whose type references and enum bases are drawn freely from a small pool of names, random manifests; texts in block style or entirely in flow style with scalars in the first column) are fed to `yardl validate` / `yardl generate`; oracle = exit 0, or exit 1 with an error naming an existing file (and, for model files, a line number that is a line of that file); any panic, fatal error, signal, exit code other than 0/1, >10 s run time or >4 GiB address space is a violation. Cannot show absence; aims generators at every unmarshaller and at the computed-field resolver.",
    note="trusted: the harness's YAML printer and the regexp that recognises yardl's error lines; 10 s / 4 GiB stand for 'promptly' / 'does not exhaust memory'",
    ref="DESIGN.md section 3 (C10)"),
 }
